@@ -1,6 +1,6 @@
 (** Property C19 — mergeability predictions agree with verification of the predicted merge.
     Only statements here; proofs are in C19Proofs.v. *)
-From GV Require Import Mergeable C19Check C19Proofs WorldExamples.
+From GV Require Import Mergeable C19Check C19Proofs C19Exact WorldExamples.
 
 (** What the delegation part of the prediction means: it names one verifier of the branch, says
     "no signature needed" only when that verifier's threshold is already met by the approvals, and
@@ -76,8 +76,38 @@ Example C19_signature_needed_example :
   verify_full (with_merge (w_need [5%N; 6%N]) mainref 3%N 0%N) mainref = VTip 3%N.
 Proof. exact need_example. Qed.
 
-(** C19_partial.  Not proved: that for principals with pairwise disjoint keys an authorised,
-    not-yet-counted recorder raises the credited set by exactly its own principal (so "signature
-    needed" verifies exactly for such recorders), and the lift of these verifier-level facts through
-    the whole verification loop.  Those clauses are evaluated, for every generated policy, approval
-    set and candidate recorder, on the implementation's answers by c19_check. *)
+(** The "signature needed" clause at the verifier, for principals that each hold one key and share
+    none ([simple]), a non-empty approval envelope and a threshold above one.  [cred] is what the
+    approvals alone credit.  A recorder whose key belongs to a principal of the rule that is not
+    yet credited makes the verifier accept whenever the approvals were short by one ... *)
+Theorem C19_uncounted_authorised_recorder_verifies : forall v sigs,
+  simple (v_principals v) -> sigs <> [] -> v_exhaustive v = false -> (1 < v_threshold v)%Z -> v_principals v <> [] ->
+  forall g p, In p (v_principals v) -> key_of p = g -> ~ In (p_id p) (cred (v_principals v) sigs []) ->
+  (v_threshold v - 1 <= Z.of_nat (List.length (cred (v_principals v) sigs [])))%Z ->
+  exists s, verify v true g (Some sigs) = VOkSet s.
+Proof. exact recorder_adds_one. Qed.
+Print Assumptions C19_uncounted_authorised_recorder_verifies.
+
+(** ... a recorder whose principal the approvals already credit gains nothing ... *)
+Theorem C19_counted_recorder_gains_nothing : forall v sigs,
+  simple (v_principals v) -> sigs <> [] -> v_exhaustive v = false -> (1 < v_threshold v)%Z -> v_principals v <> [] ->
+  forall g p, In p (v_principals v) -> key_of p = g -> In (p_id p) (cred (v_principals v) sigs []) ->
+  ~ (v_threshold v <= Z.of_nat (List.length (cred (v_principals v) sigs [])))%Z ->
+  exists s, verify v true g (Some sigs) = VErr EUnmet s.
+Proof. exact counted_recorder_adds_nothing. Qed.
+Print Assumptions C19_counted_recorder_gains_nothing.
+
+(** ... and what the approvals alone give is exactly [cred] (so "short by one" is a statement about
+    [cred]); outsiders are covered by C19_outsider_changes_nothing. *)
+Theorem C19_approvals_alone : forall v sigs,
+  simple (v_principals v) -> sigs <> [] -> v_exhaustive v = false -> (1 < v_threshold v)%Z -> v_principals v <> [] ->
+  verify v false 0%N (Some sigs) =
+  if (v_threshold v <=? Z.of_nat (List.length (cred (v_principals v) sigs [])))%Z
+  then VOkSet (cred (v_principals v) sigs []) else VErr EUnmet (cred (v_principals v) sigs []).
+Proof. exact verify_without. Qed.
+Print Assumptions C19_approvals_alone.
+
+(** C19_partial.  Not proved: the lift of these verifier-level facts through the whole verification
+    loop (the recorded merge is the only new entry, policy and approvals unchanged) and the global
+    rule reduction.  Those are evaluated, for every generated policy, approval set and candidate
+    recorder, on the implementation's answers by c19_check. *)
